@@ -22,7 +22,7 @@ var ccrTriage = map[string]string{
 	"vm/abi.(*ABIContract).MethodById|map-range:recv.Methods":                                                                                "[exit=1 append=0 sorted=0] class (d): selects by equality on the 4-byte id, unique per ABI",
 	"vm/embedded/implementation.computeDetailedPillarReward|map-range:a0.GetPillarDelegationsByEpoch(a1)#0":                                  "[exit=1 append=0 sorted=1] class (a): addReward per backer key; the early exit is an error return",
 	"vm/embedded/implementation.computeDetailedPillarReward|map-range:make(map[types.Address]*big.Int)":                                      "[exit=0 append=1 sorted=1] class (c)/(e): keys appended then sort.Strings; debug output only",
-	"vm/embedded/implementation.computeDetailedPillarReward|map-range:next(range(a0.GetPillarDelegationsByEpoch(a1)#0))#2.Backers":           "[exit=0 append=0 sorted=1] class (a)/(b): per-backer share / sum of backer amounts",
+	"vm/embedded/implementation.computeDetailedPillarReward|map-range:next(range(a0.GetPillarDelegationsByEpoch(a1)#0))#2.Backers":           "[exit=0 append=0 sorted=0] or [exit=0 append=0 sorted=1] class (a)/(b): two loops over one pillar's backers — the sum of backer amounts and the per-backer share (addReward keyed by backer)",
 	"vm/embedded/implementation.computePillarRewardForEpoch|map-range:a0.Pillars":                                                            "[exit=0 append=0 sorted=0] class (b): sums expected block counts",
 	"vm/embedded/implementation.computePillarsRewardForEpoch|map-range:a0.EpochStats(a1)#0.Pillars":                                          "[exit=0 append=1 sorted=1] class (c): names appended then sort.Strings before use",
 }
